@@ -19,9 +19,12 @@ MANIFEST = dict(
           "interpreter (Ekit/MiniGo/Lang.lean: heap of nodes with left/right/parent pointers, nil dereference = panic, fuel for loops and "
           "calls) is what the theorems are about: after every history of Add/Delete/Find/Set from NewRBTree, for every comparator function "
           "and every fuel, the heap holds a tree without sharing or cycles in which the root has no parent, every child's parent link points "
-          "back and every non-root node is a child of the node its parent link names (c02_ptr_history_parent_links); proved through a "
+          "back and every non-root node is a child of the node its parent link names (c02_ptr_history_parent_links), the reported size equals "
+          "the number of nodes (c02_ptr_history_size) and, for every lawful comparator, the keys met by the in-order walk along the child "
+          "pointers are strictly ascending (c02_ptr_history_ordered); proved through a "
           "contract for all syntactically safe procedures (one induction over the syntax, so the fix-up procedures are covered whatever "
-          "they do with colours) and one lemma each for rotateLeft, rotateRight, addNode, deleteNode. The translated program is run "
+          "they do with colours) and lemmas for rotateLeft, rotateRight, addNode, deleteNode, findSuccessor (returns the in-order successor) and "
+          "fixAfterDelete (its leaf argument stays a leaf and is never rotated up to the root). The translated program is run "
           "against the real tree on every trace (area rbptr: results, size, colour/key/shape dump after every call)."),
     note=COMMON_NOTE + " Parent pointers do not exist in the functional model; their consistency is proved for the MiniGo "
          "translation of the source (regenerated on every run) and additionally established by the audit walker on the implementation "
